@@ -30,6 +30,9 @@ const (
 
 func TestMain(m *testing.M) {
 	slog.SetDefault(slog.New(slog.DiscardHandler))
+	if f := os.Getenv("C19_HELPER_CASE"); f != "" {
+		os.Exit(helperMain(f, os.Getenv("C19_HELPER_DIR"))) // child of the real-kill cross-check
+	}
 	evid.Main(m, "C19", "fault_enumeration",
 		"rapid-generated fakedb databases (1-3 named graphs incl. names that need path escaping, <= 12 entities in total, ids with gaps and interleaved between graphs, property values of every JSON shape incl. keys the scrubber rewrites) x compression {none,gzip,zstd} x batch size and shard size drawn from {1,2,3,count-1,count,count+1,count/2,1000} x scrub {none, full}. Per case ONE uninterrupted dump is run with hook H2 active; the output directory is captured before EVERY file-system mutation (fsStep site) = what a kill -9 there leaves; torn variants (file empty / half written) are derived for every write-type step; in addition the dump is re-run with a database error at EVERY read transaction and at EVERY delivered record, with a context cancellation at EVERY fsStep, and with a failing file-system operation at every checkpoint/manifest write and every rename. Every distinct resulting directory state S is judged: (I0) every fragment the checkpoint records is on disk with the recorded digest, and a directory holding fragments holds a checkpoint or a manifest; (I1) manifest.json present => the dump is complete and loadable; (I2) Dump(Resume=true) on a copy of S either fails and leaves the recorded fragments byte-identical or succeeds with a dump equal to the uninterrupted one (fast path: byte-identical; otherwise the full C18 oracle: manifest recomputed from the files, Load into an empty database, every entity exactly once) with no checkpoint and no *.tmp left; (I3) resume with a changed codec / zstd level / batch / shard / scrub / salt / driver / target list, with a source whose counts changed in a graph the checkpoint has counted, or with a planted extra file (six places) must fail and leave the recorded fragments intact. The resume of every state is itself captured at every fsStep (and, at selected states in quick / every state in thorough, re-run with database errors, cancellations and file-system errors), and the resulting states are judged in the same way until no new state appears (crash depth unbounded, states memoised by content). Evidence counts crash points. Non-trivial = the crash state's checkpoint shows a current phase with >= 1 committed fragment and >= 1 fragment still to be published; distinct = (kind, site, occurrence, chain of earlier crashes, configuration = codec/scrub/batch/shard/graph sizes).",
 		"the file system applies operations in program order and what has been written survives a process kill (no fsync / power-loss modelling); rename, mkdir and unlink are atomic; a write may be torn at any byte (modelled: empty and half-written)",
